@@ -30,7 +30,7 @@ def check_C01(run):
     g = Gen(run.seed * 1000 + 1)
     types = QUICK_TYPES if run.tier == "quick" else FULL_TYPES
     scen = merge(F.fam_gssv(g, "C01", sizes(run, 600, 5000), types), F.fam_gssv_big(g, "C01", sizes(run, 160, 1500), types),
-                 F.fam_symrelax(g, "C01", sizes(run, 200, 2500), types, fns=("gssv",)))
+                 F.fam_symrelax(g, "C01", sizes(run, 200, 2500), types, fns=("gssv",)), F.fam_blocktri(g, "C01", sizes(run, 200, 3000), types, fns=("gssv",)))
     run.conform("gssv", scen, ["C01."])
     return run.finish(rule="random small dyadic systems through ?gssv (orders 1..8, five orderings, u in {1..1/16}, NC/NR, nrhs 0..3, lda >= n, random tuning); "
                            "non-trivial = accepted scenario whose trace was validated clause by clause")
@@ -41,7 +41,7 @@ def check_C02(run):
     g = Gen(run.seed * 1000 + 2)
     types = QUICK_TYPES if run.tier == "quick" else FULL_TYPES
     scen = merge(F.fam_gssv(g, "C02", sizes(run, 400, 3000), types), F.fam_gstrf(g, "C02", sizes(run, 400, 3000), types), F.fam_tall_n1(g, "C02", sizes(run, 40, 200), types),
-                 F.fam_gssv_big(g, "C02", sizes(run, 90, 1200), types), F.fam_symrelax(g, "C02", sizes(run, 250, 4000), types))
+                 F.fam_gssv_big(g, "C02", sizes(run, 90, 1200), types), F.fam_symrelax(g, "C02", sizes(run, 250, 4000), types), F.fam_blocktri(g, "C02", sizes(run, 250, 3000), types))
     run.conform("lu", scen, ["C02."])
     return run.finish(rule="square systems through ?gssv, square and tall matrices through ?gstrf with caller-supplied perm_c")
 
@@ -50,7 +50,7 @@ def check_C03(run):
     g = Gen(run.seed * 1000 + 3)
     types = QUICK_TYPES if run.tier == "quick" else FULL_TYPES
     scen = merge(F.fam_gssv(g, "C03", sizes(run, 400, 3000), types), F.fam_gstrf(g, "C03", sizes(run, 400, 3000), types), F.fam_tall_n1(g, "C03", sizes(run, 40, 200), types),
-                 F.fam_symrelax(g, "C03", sizes(run, 250, 2500), types), F.fam_histgrow(g, "C03", sizes(run, 120, 800), types))
+                 F.fam_symrelax(g, "C03", sizes(run, 250, 2500), types), F.fam_histgrow(g, "C03", sizes(run, 120, 800), types), F.fam_blocktri(g, "C03", sizes(run, 200, 2000), types))
     # reuse modes: the structure after SamePattern / SamePattern_SameRowPerm (abandoned pivots, other fill) is held to the same predicate
     hists = [h for h in tlc_histories(run) if any(k[0] != "DOFACT" for k in h)]
     g.r.shuffle(hists)
@@ -122,7 +122,7 @@ def check_C10(run):
         run.model_check("Order_r", "MC_Order.tla", "MC_Order_r.cfg", coverage=False)
         run.model_check("Order_t", "MC_Order.tla", "MC_Order_t.cfg", coverage=False, timeout=3000)
     g = Gen(run.seed * 1000 + 10)
-    run.conform("order", F.fam_order(g, "C10", sizes(run, 500, 4000), exhaustive3=True), ["C10."])
+    run.conform("order", F.fam_order(g, "C10", sizes(run, 500, 4000), exhaustive3=True, blocks=sizes(run, 250, 4000)), ["C10.", "C19.abnormal_end", "C19.redzone"])
     run.conform("orderbig", F.fam_order_big(g, "C10", sizes(run, 32, 300)), ["C10.", "C19.redzone", "C19.bad_free"], per_chunk=2)
     # the tree the drivers hand back (and the factor routine receives as an input) is the same object: SymmetricMode on and off
     tyd = {"d": 1.0, "z": 0.4, "s": 0.4, "c": 0.3}
@@ -310,7 +310,7 @@ def check_C18(run):
     g = Gen(run.seed * 1000 + 18)
     scen = {}
     tys = ["d", "z", "s", "c"]
-    reps = 3 if run.tier == "quick" else 12          # rep 0: the plainest member of every corruption class; later reps draw members and base calls
+    reps = 5 if run.tier == "quick" else 13          # rep 0: the plainest member of every corruption class; reps 1.. take the members in turn and draw the base call
     for ty in tys:
         lst = []
         for rep in range(reps):
@@ -319,7 +319,7 @@ def check_C18(run):
                 # pairs of corruptions: all of them in double precision, a quarter elsewhere (quick tier)
                 if len(o["corrupt"]) > 1 and run.tier == "quick" and (rep > 0 or (ty != "d" and (k + "dzsc".index(ty)) % 4)):
                     continue
-                lst.append(F.screen_scenario(g, "C18-%s-%04d%02d-%s" % (fam, k, rep, ty), ty, o["routine"], o["corrupt"], o["mode"], plain=(rep == 0)))
+                lst.append(F.screen_scenario(g, "C18-%s-%04d%02d-%s" % (fam, k, rep, ty), ty, o["routine"], o["corrupt"], o["mode"], plain=(rep == 0), rep=rep))
             # the valid base calls themselves (accepted: nothing is demanded of them here)
         scen[ty] = lst
     run.conform("screen", scen, ["C18."])
@@ -381,7 +381,8 @@ def check_C07(run):
     g = Gen(run.seed * 1000 + 7)
     types = QUICK_TYPES if run.tier == "quick" else FULL_TYPES
     scen = merge(F.fam_storage(g, "C07", sizes(run, 100, 600), types), F.fam_storage(g, "C07", sizes(run, 50, 300), types, fn="gsisx"),
-                 F.fam_storage_dense(g, "C07", sizes(run, 120, 800), types), F.fam_ilu_sizesweep(g, "C07", sizes(run, 36, 400), {"d": 1.0, "z": 0.6, "s": 0.6, "c": 0.5}))
+                 F.fam_storage_dense(g, "C07", sizes(run, 120, 800), types), F.fam_ilu_sizesweep(g, "C07", sizes(run, 24, 300), {"d": 1.0, "z": 0.6, "s": 0.6, "c": 0.5}),
+                 F.fam_ilu_capacity(g, "C07", sizes(run, 100, 1200), {"d": 1.0, "z": 0.5, "s": 0.5, "c": 0.4}))
     # vendor BLAS (the configuration the tests use): bit-for-bit on exact (D2) scenarios, structure always
     run.conform("storage", scen, ["C07."])
     # bundled C BLAS loops: bit-for-bit whatever the data
@@ -410,6 +411,14 @@ def check_C08(run):
             scen[ty] += F.fam_sweep(g, "C08", ty, [(8, 1), (7, 2)], (0, 4), family="sweepU", arrow=True)
             scen[ty] += F.fam_sweep(g, "C08", ty, [(3, 1), (4, 2), (5, 4)], (0, 4), fn="gsisx")
     run.conform("sweep", scen, ["C08.", "C07."], timeout=5, tv_env={"MODE": "light"})
+    # tall matrices through the factor routine itself (the drivers take square systems only): outcome judged numerically
+    gt = Gen(run.seed * 1000 + 81)
+    if run.tier == "quick":
+        scent = {"d": F.fam_sweep_tall(gt, "C08", "d", [(7, 4, 2), (9, 5, 1)], (0, 4)), "z": F.fam_sweep_tall(gt, "C08", "z", [(6, 3, 2)], (0,)),
+                 "s": F.fam_sweep_tall(gt, "C08", "s", [(8, 5, 2)], (4,)), "c": F.fam_sweep_tall(gt, "C08", "c", [(6, 4, 1)], (0,))}
+    else:
+        scent = {ty: F.fam_sweep_tall(gt, "C08", ty, [(7, 4, 2), (9, 5, 1), (6, 3, 3), (12, 8, 2), (5, 4, 4)], (0, 4), step=4) for ty in ("d", "s", "z", "c")}
+    run.conform("sweep_tall", scent, ["C08.", "C02.", "C03."], timeout=5)
     # refactorization (factors already inside the buffer) with every shorter length of the same buffer; the outcome of a
     # successful call is judged numerically (C02 / C05 clauses), so no light mode here
     gr = Gen(run.seed * 1000 + 82)
